@@ -64,35 +64,29 @@ def r1_order_assert(ck, F, R="C18-R1"):
         return
     sw, t_t, f_t = ed
     ck.ob(R, "false-edge-panics", diverges(b, f_t), "the `not greater` edge cannot reach a return (it panics)" + ("" if F.config != "rel" else " — also with debug assertions off"), b, c["site"])
-    # the match on self.last_key
-    msw = None
-    for bb in sorted(b.normal_blocks()):
-        if b.term(bb)["t"] == "switch":
-            e, enum, labels, oth = switch_on(b, bb)
-            if e.k == "discr" and is_self_field(e.a[0], "last_key") and enum == "std::option::Option":
-                msw = (bb, labels)
-    if not ck.ob(R, "match-on-last-key", msw is not None and "None" in msw[1] and "Some" in msw[1], "insert distinguishes first key of a block (None) from later keys (Some)", b):
+    # the decision "first key of a block / a later key"
+    from .lastkey import LastKeyRepr
+    LK = LastKeyRepr(F)
+    pe = LK.presence_edges(b)
+    if not ck.ob(R, "match-on-last-key", LK.mode is not None and len(pe) >= 1, f"insert distinguishes the first key of a block (no last key) from later keys; last key kept as {LK.describe()}", b):
         return
-    mbb, labels = msw
-    ck.ob(R, "check-on-some-arm", b.dominates(labels["Some"], c["site"].bb), "the order check runs on the Some(last_key) arm", b, c["site"])
+    ck.ob(R, "check-on-some-arm", any(b.dominates(p[1], c["site"].bb) for p in pe), "the order check runs where a last key is present", b, c["site"])
     apps = buffer_appends(b)
-    ck.floor(R, "appends to the block buffer in insert", len(apps), 4, F.config)
-    reach = reachable_without(b, banned_edges=[(sw, t_t), (mbb, labels["None"])])
+    ck.floor(R, "appends to the block buffer in insert", len(apps), 3, F.config)
+    reach = reachable_without(b, banned_edges=[(sw, t_t)] + [(p[0], p[2]) for p in pe])
     late = [s for s in apps if s.bb in reach]
-    ck.ob(R, "check-dominates-appends", not late, "every path to an append of entry bytes passes the successful order check or the empty-block arm" + (f"; appends reachable without it: {[b.loc(s) for s in late]}" if late else ""), b, c["site"])
-    # last_key refresh on both arms
-    none_reg = arm_region(b, mbb, labels["None"])
-    st_none = [(s, st) for s, st in b.sites() if s.i is not None and st["s"] == "assign" and st["pl"]["p"] and isinstance(st["pl"]["p"][-1], dict) and st["pl"]["p"][-1].get("name") == "last_key"]
-    ok_none = False
-    for s, st in st_none:
-        e = b._expr_of_def((s, "assign", st["rv"]))
-        if e.k == "agg" and e.x.get("variant") == "Some" and is_arg(e.a[0], "key") and _on_every_path_from(b, labels["None"], s, apps):
-            ok_none = True
-    ck.ob(R, "last-key-set/first-key", ok_none, "first key of a block: last_key := Some(key.to_vec()) before the entry is appended", b)
-    clr = [s for s, c_, t in calls(b, "Vec::<T, A>::clear") if "last_key" in b.arg_exprs(s)[0].show()]
-    ext = [s for s, c_, t in calls(b, "Vec::<T, A>::extend_from_slice") if "last_key" in b.arg_exprs(s)[0].show() and is_arg(b.arg_exprs(s)[1], "key")]
-    ok_some = len(clr) == 1 and len(ext) == 1 and b.dominates(t_t, clr[0].bb) and b.dominates(clr[0], ext[0]) and _on_every_path_from(b, t_t, ext[0], apps)
-    ck.ob(R, "last-key-set/later-key", ok_some, "later keys: last_key.clear(); last_key.extend_from_slice(key) on the successful-check path before the entry is appended", b)
+    ck.ob(R, "check-dominates-appends", not late, "every path to an append of entry bytes passes the successful order check or the no-last-key edge" + (f"; appends reachable without it: {[b.loc(s) for s in late]}" if late else ""), b, c["site"])
+    # the last key is refreshed to the new key on both sides, before the entry is appended
+    sets = LK.present_sets(b)
+    ok_none = ok_some = False
+    for kind, site, involved in sets:
+        for p in pe:
+            if _on_every_path_from(b, p[2], site, apps) and all(_on_every_path_from(b, p[2], x, apps) for x in involved):
+                ok_none = True
+        if all(_on_every_path_from(b, t_t, x, apps) for x in involved):
+            ok_some = True
+    ck.ob(R, "last-key-set/first-key", ok_none, "first key of a block: the last key becomes the new key before the entry is appended", b)
+    ck.ob(R, "last-key-set/later-key", ok_some, "later keys: the last key is replaced by the new key on the successful-check path before the entry is appended", b)
 
 
 def _on_every_path_from(b, start_bb, site, targets):
@@ -130,14 +124,11 @@ def r2_sole_appender(ck, F):
 
 def r3_lastkey_life(ck, F, R="C18-R3"):
     rs = F.body(A("bw_reset"))
-    from .c03 import stores_none_to
-    ck.ob(R, "reset-clears-last-key", stores_none_to(rs, A("bw_struct"), "last_key") is not None, "reset sets last_key = None", rs)
-    nones = []
-    for b in F.user_bodies():
-        s = stores_none_to(b, A("bw_struct"), "last_key")
-        if s is not None:
-            nones.append(b.path)
-    ck.ob(R, "only-reset-clears", nones == [A("bw_reset")], f"last_key is set to None only in {nones}", config=F.config)
+    from .lastkey import LastKeyRepr
+    LK = LastKeyRepr(F)
+    ck.ob(R, "reset-clears-last-key", bool(LK.absent_stores(rs)), f"reset makes the last key absent ({LK.describe()})", rs)
+    nones = [b.path for b in F.user_bodies() if LK.absent_stores(b)]
+    ck.ob(R, "only-reset-clears", nones == [A("bw_reset")], f"the last key is made absent only in {nones}", config=F.config)
     callers = sorted({b.path for b in F.user_bodies() for s, c, t in calls(b, A("bw_reset"))})
     ck.ob(R, "reset-only-from-drop", callers == [A("bb_drop")], f"reset is called only from the finished block's Drop (callers: {callers}) — the comparison base is never cleared in the middle of a block", config=F.config)
     # BlockBuffer is only produced by finish
